@@ -66,6 +66,8 @@ def exprs(W):
         "div": (div(f * v), ()), "hessian": (grad(grad(f * f))[0, 1], ()), "grad_cond": (grad(conditional(lt(f, g), f * f, g))[0], ()),
         "dx": ((f * g).dx(0) + v[i].dx(i), ()), "constant": (c * f + c * c, ()), "variable": (ufl.variable(f * g) ** 2 + f, ()),
         "det_inv": (ufl.det(A) * ufl.inv(A)[0, 1], ()), "cross2": (ufl.perp(v)[0] * w[1], ()),
+        "variable_diff": ((lambda vv: ufl.diff(ufl.sin(vv) * vv, vv) + vv**2)(ufl.variable(ufl.SpatialCoordinate(W["dom"])[0] * g)), ()),
+        "variable_vec": ((lambda vv: vv[0] * vv[1] + ufl.diff(dot(vv, vv), vv)[1])(ufl.variable(f * v)), ()),
         "coord": (ufl.SpatialCoordinate(W["dom"])[0] * f + ufl.SpatialCoordinate(W["dom"])[1], ()),
         "grad_coord": (grad(ufl.SpatialCoordinate(W["dom"])[0] * f)[0], ()),
         "cond_of_vector_guard": (conditional(eq(v[0], 0), w, w / v[0]), (0,)),
@@ -87,9 +89,10 @@ def exprs(W):
 class Jets:
     """One SymVal per (terminal, component, derivative multiset); shared by the mapping and the oracle."""
 
-    def __init__(self, shadow_of):
+    def __init__(self, shadow_of, suffix=""):
         self.cache = {}
         self.shadow_of = shadow_of
+        self.suffix = suffix
 
     def get(self, t, comp, derivs):
         if derivs and isinstance(t, C.Constant):
@@ -97,7 +100,7 @@ class Jets:
         key = (t, tuple(comp), tuple(sorted(derivs)))
         if key not in self.cache:
             name = f"{'w' if isinstance(t, C.Coefficient) else 'c'}{t.count()}{list(comp)}" + "".join(f"_dx{d}" for d in sorted(derivs))
-            name = name.replace(" ", "")
+            name = name.replace(" ", "") + self.suffix
             self.cache[key] = SymVal(Frac(tm.var(name)), self.shadow_of(name))
         return self.cache[key]
 
@@ -146,10 +149,11 @@ def terminals_of(e):
     return cs, ks, xs
 
 
-def implementation(e, comp, W, sh):
-    """The real evaluation on SymVals.  Returns (SymVal | Exception, run)."""
-    jets = Jets(sh)
-    mapping = {}
+def implementation(e, comp, W, sh, mapping=None, suffix="", point=None):
+    """The real evaluation on SymVals.  Returns (SymVal | Exception, run).  With `mapping` given, that dict object is
+    re-used (its terminal entries are overwritten with the new values), as a caller evaluating repeatedly would."""
+    jets = Jets(sh, suffix)
+    mapping = {} if mapping is None else mapping
     cs, ks, _ = terminals_of(e)
     for t in cs:
         def fn(x, derivatives=(), t=t):
@@ -160,23 +164,25 @@ def implementation(e, comp, W, sh):
         mapping[k] = nested(k.ufl_shape, lambda cc: jets.get(k, cc, ()))
     install_stub()
     run_ = symval.new_run()
+    run_.mapping = mapping
     try:
-        r = e(POINT, mapping, component=comp)
+        r = e(POINT if point is None else point, mapping, component=comp)
     except Exception as ex:  # noqa: BLE001
         r = ex
     return r, run_
 
 
-def oracle(e, comp, W, sh):
+def oracle(e, comp, W, sh, suffix="", point=None):
     """Path-wise denotation of the *input* expression (derivatives by jet arithmetic, not by UFL's AD):
     returns (value, [(condition term, outcome)], definedness terms)."""
-    jets = Jets(sh)
+    jets = Jets(sh, suffix)
+    point = POINT if point is None else point
     env = Env()
     cs, ks, xs = terminals_of(e)
     for t in cs + ks:
         env.arg_override[t] = (lambda t: lambda cc, derivs, side: jets.get(t, cc, tuple(i for _, i in derivs)).t)(t)
     for x in xs:
-            env.arg_override[x] = lambda cc, derivs, side: Frac(tm.const((Fraction(POINT[cc[0]]) if not derivs else
+            env.arg_override[x] = lambda cc, derivs, side: Frac(tm.const((Fraction(point[cc[0]]) if not derivs else
                                                                       (1 if len(derivs) == 1 and derivs[0][1] == cc[0] else 0))))
     opath = []
 
@@ -229,7 +235,64 @@ def pool_expr(spec):
     raise KeyError(op)
 
 
+POINT2 = (0.75, -1.5)
+
+
+def run_reuse(spec):
+    """Two evaluations through ONE mapping object whose values (and the point) change in between: the second result
+    must be the value for the second data (nothing may be remembered from the first call)."""
+    name = spec["name"]
+    W = world()
+    e, comp = exprs(W)[spec["key"]]
+    sample = f"reuse/{spec['key']}: ({str(e)[:150]})[{comp}] evaluated twice through the same mapping object with new values"
+    for attempt in range(6):
+        ring.reset()
+        sh1 = Shadows({}, seed=attempt * 31 + 5)
+        r1, run1 = implementation(e, comp, W, sh1)
+        if run1.tainted:
+            return outcome(name, "rejected", detail=f"concretised: {run1.taint_where}", sample=sample)
+        if isinstance(r1, Exception):
+            continue
+        sh2 = Shadows({}, seed=attempt * 37 + 11)
+        sh2.small = attempt % 2 == 1
+        r2, run2 = implementation(e, comp, W, sh2, mapping=run1.mapping, suffix="#2", point=POINT2)
+        try:
+            want, opath, onz = oracle(e, comp, W, sh2, suffix="#2", point=POINT2)
+        except DenotationError as ex:
+            return outcome(name, "inconclusive", detail=f"denotation: {ex}", sample=sample)
+        vals = concrete(onz + list(ring.ST.domain) + value_roots(want), sh2)
+        defined = vals is not None and all(v != 0 for v in vals[: len(onz)])
+        if isinstance(r2, Exception) or not defined:
+            if isinstance(r2, Exception) and defined:
+                return outcome(name, "violated", detail=f"second evaluation raised {type(r2).__name__}: {str(r2)[:100]}", sample=sample,
+                               witness={"exception": repr(r2)[:200]})
+            continue
+        pc = [(t if o else tm.not_(t)) for t, o in run2.path]
+        got = r2.t if isinstance(r2, SymVal) else Frac(tm.const(float_literal(r2) if isinstance(r2, float) else Fraction(r2)))
+        for c, o in opath:
+            ri = solve.prove_implied(c if o else tm.not_(c), assumptions=pc, timeout=30, label=name)
+            if ri.status == "violated":
+                return outcome(name, "violated", detail="second evaluation decides a condition with data of the first", witness=ri.witness, sample=sample)
+            if ri.status != "proved":
+                return outcome(name, "inconclusive", detail=f"branch agreement: {ri.detail}", sample=sample)
+        diffs = solve.flatten_diffs([(want, got)])
+        li, _ = lemmas.instances(diffs)
+        rr = solve.prove_all_zero(diffs, pc, 60, li, label=name)
+        if rr.status == "violated":
+            return outcome(name, "violated", detail="the second evaluation through the same mapping object does not return the value "
+                           "for the second data", witness=rr.witness, sample=sample, stage=rr.stage)
+        if rr.status != "proved":
+            return outcome(name, "inconclusive", detail=rr.detail, sample=sample)
+        ok, bad = solve.discharge_lemmas(60)
+        if bad:
+            return outcome(name, "inconclusive", detail="lemma not discharged", sample=sample)
+        return outcome(name, "proved", stage=rr.stage, sample=sample)
+    return outcome(name, "inconclusive", detail="no defined pair of sample points found", sample=sample)
+
+
 def run(spec):
+    if spec.get("family") == "reuse":
+        return run_reuse(spec)
     name = spec["name"]
     W = world()
     if spec.get("family") == "pool":
@@ -335,6 +398,9 @@ def specs(tier):
 
     W = world()
     S = [dict(name=k, key=k, twin=(k in ("poly", "cond1", "index_sum", "grad_product", "math_sin"))) for k in exprs(W)]
+    for k in ("poly", "variable", "variable_diff", "variable_vec", "cond1", "cond_nested", "ct_reused_index", "index_sum", "grad_product",
+              "hessian", "math_sin", "constant", "list_matrix", "max_min", "coord", "grad_cond"):
+        S.append(dict(name=f"reuse/{k}", family="reuse", key=k))
     P = Pool("triangle", 2, base=1420)
     for kind, pool in (("s", P.scalars()), ("v", P.vectors()), ("t", P.tensors())):
         for key in pool:
